@@ -2498,3 +2498,115 @@ func ruleSelfProgress(prog *Program, rep *Report, floor int, rels ...string) {
 	rep.Rules = append(rep.Rules, "E-selfprogress: in the branch in which a method calls itself on its own receiver with its parameters unchanged, no receiver field that an enclosing branch condition tests is assigned directly between the last method call on the receiver and the self-call: the retry relies on that state having changed ("+strings.Join(rels, ", ")+")")
 	runSynRule(prog, rep, "E-selfprogress", rels, matchSelfProgress, fixtureSelfProgress, 1, floor)
 }
+
+// ---------------------------------------------------------------- D-globalreturn
+
+// matchGlobalReturn: a function whose result is a pointer to a struct type of its own package hands out a
+// value the caller goes on to fill in (pretty's builders return nodes whose key and members the caller sets).
+// Returning a package-level variable there makes every caller share - and overwrite - one value.
+func matchGlobalReturn(files []*ast.File, info *types.Info) (sites []synSite, examined int) {
+	for _, f := range files {
+		for _, d := range f.Decls {
+			fd, ok := d.(*ast.FuncDecl)
+			if !ok || fd.Body == nil || fd.Type.Results == nil || len(fd.Type.Results.List) != 1 {
+				continue
+			}
+			rt := info.TypeOf(fd.Type.Results.List[0].Type)
+			ptr, ok := rt.(*types.Pointer)
+			if !ok {
+				continue
+			}
+			nt, ok := ptr.Elem().(*types.Named)
+			if !ok {
+				continue
+			}
+			if _, isStruct := nt.Underlying().(*types.Struct); !isStruct {
+				continue
+			}
+			self, _ := info.Defs[fd.Name].(*types.Func)
+			if self == nil || nt.Obj().Pkg() != self.Pkg() {
+				continue
+			}
+			ast.Inspect(fd.Body, func(n ast.Node) bool {
+				if _, isLit := n.(*ast.FuncLit); isLit {
+					return false
+				}
+				ret, ok := n.(*ast.ReturnStmt)
+				if !ok || len(ret.Results) != 1 {
+					return true
+				}
+				examined++
+				id, ok := ast.Unparen(ret.Results[0]).(*ast.Ident)
+				if !ok {
+					return true
+				}
+				v, ok := info.Uses[id].(*types.Var)
+				if !ok || v.Pkg() == nil || v.Parent() != v.Pkg().Scope() {
+					return true
+				}
+				name := enclosingFuncName(f, fd.Pos())
+				sites = append(sites, synSite{pos: ret.Pos(), file: f, key: fmt.Sprintf("%s:returns-global:%s", name, v.Name()),
+					msg: fmt.Sprintf("%s returns the package-level variable %s as its *%s result: every caller gets the same value and what one caller stores in it is seen by all others", name, v.Name(), nt.Obj().Name())})
+				return true
+			})
+		}
+	}
+	return
+}
+
+const fixtureGlobalReturn = `package fixture
+
+type node struct {
+	key []byte
+	buf []byte
+}
+
+var plainNull = &node{buf: []byte("null")}
+
+func buildNull(plain bool) *node {
+	if plain {
+		return plainNull
+	}
+	n := node{buf: []byte("null")}
+	return &n
+}
+`
+
+// globalReturnAccepted: package-level values that are handed out on purpose (read).
+var globalReturnAccepted = map[string]string{}
+
+func ruleGlobalReturn(prog *Program, rep *Report, floor int, rels ...string) {
+	rep.Rules = append(rep.Rules, "D-globalreturn: no function whose result is a pointer to a struct type of its own package returns a package-level variable: the values handed out are the caller's to fill in ("+strings.Join(rels, ", ")+")")
+	ff, finfo, _, err := loadFixture(fixtureGlobalReturn)
+	if err != nil {
+		rep.Errorf("D-globalreturn: fixture does not type-check: %v", err)
+		return
+	}
+	if fs, _ := matchGlobalReturn(ff, finfo); len(fs) != 1 {
+		rep.Errorf("D-globalreturn: the positive-control fixture produced %d matches (want 1)", len(fs))
+		return
+	}
+	rep.Discharge("D-globalreturn", "positive-control", "checker/rules_r7.go", "fixture matched once")
+	total := 0
+	for _, rel := range rels {
+		pk := prog.Pkg(rel)
+		if pk == nil {
+			rep.Errorf("D-globalreturn: package %s not loaded", rel)
+			continue
+		}
+		sites, n := matchGlobalReturn(pk.Syntax, pk.TypesInfo)
+		total += n
+		for _, s := range sites {
+			if why, ok := globalReturnAccepted[rel+"."+s.key]; ok {
+				rep.Discharge("D-globalreturn", rel+"."+s.key, prog.Pos(s.pos), "accepted (read): "+why)
+				continue
+			}
+			rep.Violate(Finding{Rule: "D-globalreturn", Key: rel + "." + s.key, Pos: prog.Pos(s.pos), Msg: s.msg})
+		}
+		rep.Discharge("D-globalreturn", rel, rel, fmt.Sprintf("%d return statements examined", n))
+	}
+	rep.Eval(total)
+	if total < floor {
+		rep.Errorf("D-globalreturn examined %d return statements (floor %d)", total, floor)
+	}
+}
